@@ -14,7 +14,9 @@ Inductive mstep :=
 | MCancel (t : nat)       (* cancel caller t's context (possibly before it arrives) *)
 | MExpire (t : nat)       (* caller t's context has a deadline and the script lets it pass;
                              for the machine this is Cancel t: the caller's own context is dead *)
-| MRelease (r : resp).    (* let the gated download (if any) return r *)
+| MRelease (r : resp)     (* let the gated download (if any) return r *)
+| MRotate (ks : list jwk). (* ground truth only: from now on the endpoint publishes ks (what a good
+                              answer would carry); nothing happens at the key set *)
 
 Inductive input :=
 | Script (skip : bool) (steps : list mstep)
@@ -45,6 +47,7 @@ Definition events_of (w : world) (m : mstep) : list event :=
       | Some g => FetchReturns g r :: Commit g :: map Run (seq 0 (List.length (w_callers w)))
       | None => []
       end
+  | MRotate _ => []
   end.
 
 Definition delivered_of (w : world) (m : mstep) : bool :=
@@ -100,31 +103,49 @@ Definition mem (t : nat) (l : list nat) : bool := existsb (Nat.eqb t) l.
 (* ground truth: the token's signer is among the keys of a served body *)
 Definition signer_in (ks : list jwk) (tok : token) : bool :=
   existsb (fun k => Nat.eqb (k_mat k) (t_signer tok)) ks.
-(* ground truth for "signed by a key the endpoint serves at that time" => must verify:
-   among the published keys that can verify this token at all - usable for signatures, of
-   the key type of the token's algorithm, published under the token's kid (under any kid
-   when the token has none) - there is exactly one, and it is the signer.  Keys of another
-   key type or use under the same kid (RFC 7517 4.5: equivalent alternatives, e.g. an
-   RSA->EC migration) and kid-less neighbours do not make the served signer ambiguous;
-   two usable keys of the right type under the token's kid (or for a kid-less token) do. *)
-Definition candidate (tok : token) (k : jwk) : bool :=
-  use_ok k && alg_fits (k_kty k) (t_alg tok)
-  && (String.eqb (t_kid tok) "" || String.eqb (k_kid k) (t_kid tok)).
+(* ground truth for "signed by a key the endpoint serves at that time" => must verify.
+   Among the published keys that can verify this token at all (usable for signatures, of the
+   key type of the token's algorithm) the signer is identifiable:
+   - the token has no kid: there is exactly one such key, the signer;
+   - the token has a kid: exactly one such key is published under that kid, the signer; or
+     none is, and exactly one such key is published WITHOUT kid, the signer (a key set may
+     leave the kid out while tokens carry one).
+   Keys of another key type or use under the same kid (RFC 7517 4.5: equivalent alternatives,
+   e.g. an RSA->EC migration) do not make the served signer ambiguous; two usable keys of the
+   right type under the token's kid (or two kid-less ones, or two for a kid-less token) do, and
+   nothing is demanded then. *)
+Definition fits (tok : token) (k : jwk) : bool := use_ok k && alg_fits (k_kty k) (t_alg tok).
 Definition unique_match (ks : list jwk) (tok : token) : bool :=
-  match filter (candidate tok) ks with
+  let f := filter (fits tok) ks in
+  let pick :=
+    if String.eqb (t_kid tok) "" then f
+    else match filter (fun k => String.eqb (k_kid k) (t_kid tok)) f with
+         | [] => filter (fun k => String.eqb (k_kid k) "") f
+         | ex => ex
+         end in
+  match pick with
   | [k] => Nat.eqb (k_mat k) (t_signer tok)
   | _ => false
   end.
+(* interpretive guard of the arrival clause: the cached ground truth does not bind the token's
+   kid to ANOTHER usable key of the right type (kid reuse across a rotation: the cached exact
+   match fails for good, no refresh), and a kid-less token is not used with SkipRemoteCheck
+   (documented: no refresh when the cached kid-less key fails) *)
+Definition no_kid_conflict (skip : bool) (good : list jwk) (tok : token) : bool :=
+  if String.eqb (t_kid tok) "" then negb skip
+  else forallb (fun k => negb (fits tok k && String.eqb (k_kid k) (t_kid tok))
+                         || Nat.eqb (k_mat k) (t_signer tok)) good.
 
 Record truth := mkGt {
   gt_toks : list token;     (* tokens of the callers that arrived, by tid *)
   gt_cancelled : list nat;  (* contexts cancelled so far *)
   gt_good : list jwk;       (* body of the last download the endpoint answered well *)
-  gt_deliv : nat }.         (* downloads answered so far *)
+  gt_deliv : nat;           (* downloads answered so far *)
+  gt_pub : list jwk }.      (* what the endpoint publishes now (last MRotate) *)
 
 Definition tok_at (g : truth) (t : nat) : token := nth t (gt_toks g) (mkTok "" "" 0).
 
-Definition check_step (g : truth) (p s : snap) (m : mstep) : bool * truth :=
+Definition check_step (skip : bool) (g : truth) (p s : snap) (m : mstep) : bool * truth :=
   let toks' := match m with MArrive tok => gt_toks g ++ [tok] | _ => gt_toks g end in
   let canc' := match m with MCancel t | MExpire t => t :: gt_cancelled g | _ => gt_cancelled g end in
   let deliv' := if s_delivered s then S (gt_deliv g) else gt_deliv g in
@@ -133,7 +154,8 @@ Definition check_step (g : truth) (p s : snap) (m : mstep) : bool * truth :=
                                else gt_good g
                | _ => gt_good g end in
   let n := List.length toks' in
-  let g' := mkGt toks' canc' good' deliv' in
+  let pub' := match m with MRotate ks => ks | _ => gt_pub g end in
+  let g' := mkGt toks' canc' good' deliv' pub' in
   let tids := seq 0 n in
   let newly t := is_pending (stat_at p t) && negb (is_pending (stat_at s t)) in
   let own_arrival t := match m with MArrive _ => Nat.eqb t (List.length (gt_toks g)) | _ => false end in
@@ -149,6 +171,9 @@ Definition check_step (g : truth) (p s : snap) (m : mstep) : bool * truth :=
     && (s_req s <=? S deliv')           (* single flight: at most one download not yet answered *)
     && (s_req s <=? n)                  (* at most one refresh per call *)
     && (negb (s_delivered s) || is_release)
+    && list_eqb Nat.eqb (s_cache s) (map k_mat good')
+         (* the cached keys are the list the last good download served: no verification, cancel
+            or failed download alters them *)
     && forallb (fun t => negb (newly t) || mem t canc' || own_arrival t || s_delivered s) tids
          (* cancel isolation: a call whose context is live finishes only by itself
             (on arrival, from the cache) or because the endpoint answered *)
@@ -162,6 +187,10 @@ Definition check_step (g : truth) (p s : snap) (m : mstep) : bool * truth :=
         (negb (unique_match (gt_good g) tok) || (is_ok (stat_at s t) && Nat.eqb (s_req s) (s_req p)))
           (* a key of the last good download still verifies, without a new download *)
         && (negb (is_ok (stat_at s t)) || signer_in (gt_good g) tok)
+        && (negb (unique_match (gt_pub g) tok) || mem t canc' || negb (no_kid_conflict skip (gt_good g) tok)
+            || is_pending (stat_at s t) || is_ok (stat_at s t))
+          (* a token signed by a key the endpoint publishes NOW (e.g. newly rotated) is not turned
+             away on arrival: it verifies from the cache or triggers a refresh *)
         && match stat_at s t with
            | SPending | SOk | SErr ESig => true    (* waits for a download, or answered by the cache *)
            | SErr ECtx => mem t canc'
@@ -169,7 +198,7 @@ Definition check_step (g : truth) (p s : snap) (m : mstep) : bool * truth :=
                              call: the answer of a download that ended before the call began; only
                              verifications WAITING for a failed download fail with it *)
            end
-    | MCancel _ | MExpire _ => true
+    | MCancel _ | MExpire _ | MRotate _ => true
     | MRelease r =>
         if s_delivered s then
           forallb (fun t => negb (is_pending (stat_at p t)) || negb (is_pending (stat_at s t))) tids
@@ -187,16 +216,16 @@ Definition check_step (g : truth) (p s : snap) (m : mstep) : bool * truth :=
     end in
   (common && specific, g').
 
-Fixpoint check_steps (g : truth) (p : snap) (ms : list mstep) (ss : list snap) : bool :=
+Fixpoint check_steps (skip : bool) (g : truth) (p : snap) (ms : list mstep) (ss : list snap) : bool :=
   match ms, ss with
   | [], [] => true
-  | m :: mr, s :: sr => let '(ok, g') := check_step g p s m in ok && check_steps g' s mr sr
+  | m :: mr, s :: sr => let '(ok, g') := check_step skip g p s m in ok && check_steps skip g' s mr sr
   | _, _ => false
   end.
 
 Definition spec (i : input) (o : observed) : bool :=
   match i, o with
-  | Script _ ms, OScript ss => check_steps (mkGt [] [] [] 0) (mkSnap 0 false [] [] true) ms ss
+  | Script skip ms, OScript ss => check_steps skip (mkGt [] [] [] 0 []) (mkSnap 0 false [] [] true) ms ss
   | RaceSoak, ORace clean => clean   (* no data race reported, no schedule-independent fact violated *)
   | _, _ => false
   end.
